@@ -38,6 +38,32 @@ def named_inter_member(t):
     return False
 
 
+def has_recursive_decl(env):
+    """syntactic projection: is some declaration reachable from itself?"""
+    def refs(t, acc):
+        if isinstance(t, dict):
+            if t.get("t") in ("ref", "app") and "n" in t:
+                acc.add(t["n"])
+            for v in t.values():
+                refs(v, acc)
+        elif isinstance(t, list):
+            for v in t:
+                refs(v, acc)
+        return acc
+    g = {d["n"]: refs(d.get("ty", {}), set()) for d in env}
+    for n in g:
+        seen, todo = set(), list(g[n])
+        while todo:
+            x = todo.pop()
+            if x == n:
+                return True
+            if x in seen or x not in g:
+                continue
+            seen.add(x)
+            todo += list(g[x])
+    return False
+
+
 def vec(o):
     return "".join(p["val"][0] for p in o["probes"]) + "|" + "".join(p["vals"][0] for p in o["probes"])
 
@@ -85,6 +111,7 @@ def run(prop, tier):
         o1 = obs1.get(i)
         rec = {"id": i, "outcome": c["_comp"]["outcome"] if (o1 is None or o1["load"] == "ok") else "load-failed",
                "refunder": ref_under_union(c["ty"]) or any(ref_under_union(d.get("ty", {})) for d in c["env"]),
+               "recursive": has_recursive_decl(c["env"]),
                "namedinter": named_inter_member(c["ty"]) or any(named_inter_member(d.get("ty", {})) for d in c["env"]),
                "tploneof": '"p": "oneof"' in json.dumps(c["ty"]) or '"p": "oneof"' in json.dumps(c["env"]), "desc1ok": False, "desc1": "", "decls": [], "vec1": "", "h1": "", "outcome2": "none", "vec2": "", "h2": "", "desc2": ""}
         if o1 is not None and o1["load"] == "ok":
